@@ -46,6 +46,7 @@ Definition check_spec (c : case) : bool :=
   | CCase p env cm o =>
       match denote_top p env cm, o with
       | Err _, OErr _ => true
+      | Ok _, OErr EMissing => negb (accepts p env)   (* a declared parameter is not provided: rejecting is allowed *)
       | Ok [], ONone => true
       | Ok (p0 :: r), OProg chans dur samples =>
           let pcs := p0 :: r in
